@@ -4,8 +4,9 @@ package c20
 // real EVM bytecode, one snippet per abstract op.
 //
 // Memory layout of every assembled frame: word 0 = return word, [0x20, 0x20+initSz)
-// = init code handed to CREATE.  The prologue touches the last word so that memory
-// is expanded once per frame and every later snippet has a context-free cost.
+// = init code handed to CREATE.  The prologue (PUSH2 frame number, POP, then a store
+// to the last word) makes the code of every frame unique and expands the memory once
+// per frame, so that every later snippet has a context-free cost.
 
 import (
 	"encoding/binary"
@@ -168,7 +169,12 @@ func assemble(f *frameNode, nm names) error {
 	type fix struct{ at, child int }
 	var a asmBuf
 	var fixes []fix
-	// prologue
+	// prologue: the frame number makes the code of every frame unique (two CREATEs of
+	// the same creator and nonce - possible after a reverted CREATE - must not collide
+	// on one address, the model gives every created contract its own account), then
+	// the memory is set up
+	a.push2(f.id)
+	a.op(opPOP)
 	a.push1(0)
 	a.push2(memTop)
 	a.op(opMSTORE)
@@ -303,17 +309,20 @@ func assemble(f *frameNode, nm names) error {
 	return nil
 }
 
-// initCodeOf returns the exact bytes the CREATE op n of frame f passes as init code.
-func initCodeOf(f *frameNode, n *opNode) []byte {
-	off := int(f.code[n.start+4])<<8 | int(f.code[n.start+5])
+// initCodeOf returns the exact bytes the CREATE op n passes as init code. running is
+// the code the creating frame really executes: its assembled code for a called
+// contract, the init region it was itself created from for a create frame (which
+// continues into whatever followed it in its creator's data section).
+func initCodeOf(running []byte, n *opNode) []byte {
+	off := int(running[n.start+4])<<8 | int(running[n.start+5])
 	out := make([]byte, initSz)
-	if off < len(f.code) {
-		copy(out, f.code[off:])
+	if off < len(running) {
+		copy(out, running[off:])
 	}
 	return out
 }
 
-// rootInit is the init code used for a top-level create: the root frame's code.
+// createdAddr is the address evm.Create gives a contract (this tree hashes the init code in).
 func createdAddr(creator common.Address, nonce uint64, init []byte) common.Address {
 	return crypto.CreateAddress(creator, nonce, init)
 }
